@@ -16,6 +16,7 @@ import (
 
 // OutSpec declares an out-port and its path pattern (SetOut syntax).
 type OutSpec struct {
+	PhSuffix string `json:"ph_suffix,omitempty"` // the command refers to the output as {o:NAME|%SUFFIX}SUFFIX
 	Name    string `json:"name"`
 	Pattern string `json:"pattern"`
 	Stream  bool   `json:"stream,omitempty"`
@@ -46,6 +47,7 @@ type ProcSpec struct {
 	WriteIdiom bool             `json:"writeidiom,omitempty"`
 	JoinSep    string           `json:"joinsep,omitempty"` // kind "joiner": {i:x|join:SEP}
 	JoinMod    string           `json:"joinmod,omitempty"` // kind "joiner": extra modifier (basename, %.txt)
+	BarrierOnly []string        `json:"barrier_only,omitempty"` // only tasks whose key contains one of these take part in the barrier
 	FromStrLate bool            `json:"fromstr_late,omitempty"` // apply FromStr after the edges
 	Prepend    string           `json:"prepend,omitempty"` // Process.Prepend (a launcher put in front of the command)
 	JoinHdr    bool             `json:"joinhdr,omitempty"` // kind "joiner": a further, ordinary in-port hdr
@@ -190,6 +192,10 @@ func cmdPattern(p *ProcSpec) string {
 		ph := "{o:" + o.Name + "}"
 		if o.Stream {
 			ph = "{os:" + o.Name + "}"
+		}
+		if o.PhSuffix != "" {
+			// the out-placeholder written with a modifier: strip a suffix and put it back
+			ph = "{o:" + o.Name + "|%" + o.PhSuffix + "}" + o.PhSuffix
 		}
 		parts = append(parts, o.Name+"="+ph)
 	}
